@@ -32,7 +32,8 @@ Lemma tree_lines_stmts s : tree_lines s = stmts_lines (stmts s).
 Proof. reflexivity. Qed.
 
 Definition placed (h : list hline) (x : lid * option str) : Prop :=
-  (fst x < length h)%nat /\ hl_inb (hget h (fst x)) = match snd x with None => false | Some _ => true end.
+  (fst x < length h)%nat /\ hl_inb (hget h (fst x)) = match snd x with None => false | Some _ => true end /\
+  match snd x with None => length (hl_tok (hget h (fst x))) <> 1%nat | Some _ => True end.
 
 Lemma lview_frame h h' x : hget h' (fst x) = hget h (fst x) -> lview h' x = lview h x.
 Proof. unfold lview. intros ->. reflexivity. Qed.
@@ -245,9 +246,12 @@ Proof.
               ** left. cbn in Hk. destruct Hk as [<-|[]]. apply in_ids_block. exact Hj_in.
               ** right. apply L5. exact Hk.
            ++ rewrite stmts_lines_cons. cbn. constructor; [|exact L6].
-              split; cbn [fst snd].
+              split; [|split]; cbn [fst snd].
               ** rewrite L1, hset_length. exact Hj_len.
               ** rewrite L2 by exact Hj_r. rewrite hget_hset_same by exact Hj_len. reflexivity.
+              ** rewrite L2 by exact Hj_r. rewrite hget_hset_same by exact Hj_len. unfold l'; cbn [hl_tok].
+                 rewrite Hv, app_length. cbn. unfold line_live in Hj_live.
+                 destruct (hl_tok (hget h j)); [discriminate | cbn; lia].
            ++ constructor; [exact I | exact L7].
         -- rewrite <- Hf. specialize (IH h Hnd_r Hpl_r Hbr). destruct (syn_cleanup_loop h rest) as [h' out].
            cbn [fst snd] in *. apply keep_block_ok; assumption.
